@@ -67,6 +67,10 @@ static int h_execvp(const char *f, char *const a[]) { point("execvp"); return ex
 static int h_execv(const char *f, char *const a[]) { point("execv"); return execv(f, a); }
 static int h_execve(const char *f, char *const a[], char *const e[]) { point("execve"); return execve(f, a, e); }
 static int h_chdir(const char *d) { point("chdir"); return chdir(d); }
+/* the child lifts the signal mask it inherits from pdsh's threads: a signal forwarded while it is stopped before this
+ * call is pending and blocked there; it must arrive when the mask is lifted (the child dies of it) or in the command */
+static int h_sigprocmask(int how, const sigset_t *a, sigset_t *b) { point("sigprocmask"); return sigprocmask(how, a, b); }
+static int h_pthread_sigmask(int how, const sigset_t *a, sigset_t *b) { point("sigmask"); return pthread_sigmask(how, a, b); }
 
 #define fork h_fork
 #define vfork h_vfork
@@ -81,6 +85,8 @@ static int h_chdir(const char *d) { point("chdir"); return chdir(d); }
 #define execv h_execv
 #define execve h_execve
 #define chdir h_chdir
+#define sigprocmask h_sigprocmask
+#define pthread_sigmask h_pthread_sigmask
 #include "src/common/pipecmd.c"
 #undef fork
 #undef vfork
@@ -95,6 +101,8 @@ static int h_chdir(const char *d) { point("chdir"); return chdir(d); }
 #undef execv
 #undef execve
 #undef chdir
+#undef sigprocmask
+#undef pthread_sigmask
 
 /* referenced by execcmd.c */
 int rcmd_opt_set(int id, void *value) { (void) id; (void) value; return 0; }
